@@ -142,31 +142,59 @@ Print Assumptions C14_isfinite_exact.
 (* T2, forward direction: the mirror model of the explicit stack machine of DFA.successors
    (Model/SuccMachine.v: state stack, char stack, candidate, should_yield; the yield point, the
    descend / next-sibling / return-to-parent branches, pruning by co-accessibility and max_length,
-   next_symbol with its branch for symbols outside the alphabet, the empty-alphabet guard)
-   generates exactly the specified list: whatever the fuel, it never returns anything else, and with
-   the budget the driver uses (machine_fuel, or anything larger) it does return.
-   Hypotheses: max_length is given whenever the language is infinite (the code does not terminate
-   otherwise; succ_m answers Err Infinite there), and no symbol of the start word lies BELOW every
-   symbol of the alphabet.  Symbols of the start word outside the alphabet are otherwise allowed
-   (between or above the alphabet's), and so is the empty alphabet (the hypothesis is then empty
-   only for start words None and ""; for other start words see C14_machine_total_noerror and the
-   reverse direction).  The last hypothesis cannot be dropped - see C14_foreign_below_counterexample. *)
+   next_symbol with its branch for symbols outside the alphabet, back_at_parent, the empty-alphabet
+   guard) generates exactly the specified list: whatever the fuel, it never returns anything else,
+   and with the budget the driver uses (machine_fuel, or anything larger) it does return - no
+   KeyError, no IndexError, no endless loop.
+   Only hypothesis besides validity: max_length is given whenever the language is infinite (the code
+   does not terminate otherwise; succ_m answers Err Infinite there).  NOTHING is assumed about the
+   start word (its symbols may lie inside, below, between or above the alphabet's) or about the
+   alphabet (it may be empty). *)
 Theorem C14_machine_refines_successors : forall m start strict lo ohi,
   valid_dfa m = true ->
   (ohi = None -> finite_lang (L_dfa m)) ->
-  (forall s, start = Some s -> Forall (fun a => exists y, In y (d_syms m) /\ y <= a) s) ->
   (forall fuel l, succ_machine fuel m start strict false lo ohi = Ok l ->
                   l = succ_list m start strict lo (the_hi m ohi)) /\
   (forall fuel, machine_fuel m start ohi <= fuel ->
      succ_machine fuel m start strict false lo ohi = Ok (succ_list m start strict lo (the_hi m ohi))).
 Proof.
-  intros m start strict lo ohi Hv Hfin Hstart. split.
-  - intros fuel l. exact (machine_forward_correct fuel m start strict lo ohi l Hv Hfin Hstart).
-  - intros fuel Hf. exact (machine_forward_total fuel m start strict lo ohi Hv Hfin Hstart Hf).
+  intros m start strict lo ohi Hv Hfin. split.
+  - intros fuel l. exact (machine_forward_correct fuel m start strict lo ohi l Hv Hfin).
+  - intros fuel Hf. exact (machine_forward_total fuel m start strict lo ohi Hv Hfin Hf).
 Qed.
 Print Assumptions C14_machine_refines_successors.
 
-(* over the empty alphabet the forward direction needs no hypothesis on the start word at all *)
+(* T2, reverse direction (predecessors = successors(reverse=True), with the row-8 repair): post-order
+   over the descending alphabet, the empty word generated after the loop; same budget; likewise no
+   hypothesis on the start word or the alphabet *)
+Theorem C14_machine_refines_predecessors : forall m start strict lo ohi,
+  valid_dfa m = true ->
+  finite_lang (L_dfa m) ->
+  (forall fuel l, succ_machine fuel m start strict true lo ohi = Ok l ->
+                  l = pred_list m start strict lo (the_hi m ohi)) /\
+  (forall fuel, machine_fuel m start ohi <= fuel ->
+     succ_machine fuel m start strict true lo ohi = Ok (pred_list m start strict lo (the_hi m ohi))).
+Proof.
+  intros m start strict lo ohi Hv Hfin. split.
+  - intros fuel l. exact (machine_reverse_correct fuel m start strict lo ohi l Hv Hfin).
+  - intros fuel Hf. exact (machine_reverse_total fuel m start strict lo ohi Hv Hfin Hf).
+Qed.
+Print Assumptions C14_machine_refines_predecessors.
+
+(* both directions in one piece *)
+Theorem C14_machine_total : forall m start strict reverse lo ohi, valid_dfa m = true ->
+  (reverse = true \/ ohi = None -> finite_lang (L_dfa m)) ->
+  succ_machine (machine_fuel m start ohi) m start strict reverse lo ohi =
+    Ok (if reverse then pred_list m start strict lo (the_hi m ohi)
+        else succ_list m start strict lo (the_hi m ohi)).
+Proof.
+  intros m start strict reverse lo ohi Hv Hfin. destruct reverse.
+  - apply machine_reverse_total; auto.
+  - apply machine_forward_total; auto.
+Qed.
+Print Assumptions C14_machine_total.
+
+(* over the empty alphabet no fuel is needed at all: the guard answers *)
 Theorem C14_machine_empty_alphabet : forall fuel m start strict reverse lo ohi,
   valid_dfa m = true -> d_syms m = [] ->
   succ_machine fuel m start strict reverse lo ohi =
@@ -186,65 +214,19 @@ Proof.
 Qed.
 Print Assumptions C14_machine_empty_alphabet.
 
-(* T2, reverse direction (predecessors = successors(reverse=True), with the row-8 repair): post-order
-   over the descending alphabet, the empty word generated after the loop; same budget.  NO hypothesis
-   on the start word (any symbols, inside or outside the alphabet) and none on the alphabet. *)
-Theorem C14_machine_refines_predecessors : forall m start strict lo ohi,
-  valid_dfa m = true ->
-  finite_lang (L_dfa m) ->
-  (forall fuel l, succ_machine fuel m start strict true lo ohi = Ok l ->
-                  l = pred_list m start strict lo (the_hi m ohi)) /\
-  (forall fuel, machine_fuel m start ohi <= fuel ->
-     succ_machine fuel m start strict true lo ohi = Ok (pred_list m start strict lo (the_hi m ohi))).
-Proof.
-  intros m start strict lo ohi Hv Hfin. split.
-  - intros fuel l. exact (machine_reverse_correct fuel m start strict lo ohi l Hv Hfin).
-  - intros fuel Hf. exact (machine_reverse_total fuel m start strict lo ohi Hv Hfin Hf).
-Qed.
-Print Assumptions C14_machine_refines_predecessors.
-
-(* termination and absence of errors need no hypothesis on the start word or the alphabet in either
-   direction: with the driver's budget the machine returns some list (no KeyError, no IndexError,
-   no endless loop) *)
-Theorem C14_machine_total_noerror : forall m start strict reverse lo ohi fuel, valid_dfa m = true ->
-  (reverse = true \/ ohi = None -> finite_lang (L_dfa m)) ->
-  machine_fuel m start ohi <= fuel ->
-  exists l, succ_machine fuel m start strict reverse lo ohi = Ok l.
-Proof.
-  intros m start strict reverse lo ohi fuel Hv Hfin Hf.
-  exact (machine_total fuel m start strict reverse lo ohi Hv Hfin Hf).
-Qed.
-Print Assumptions C14_machine_total_noerror.
-
-(* both directions in one piece *)
-Theorem C14_machine_total : forall m start strict reverse lo ohi, valid_dfa m = true ->
-  (reverse = true \/ ohi = None -> finite_lang (L_dfa m)) ->
-  (reverse = false -> forall s, start = Some s -> Forall (fun a => exists y, In y (d_syms m) /\ y <= a) s) ->
-  succ_machine (machine_fuel m start ohi) m start strict reverse lo ohi =
-    Ok (if reverse then pred_list m start strict lo (the_hi m ohi)
-        else succ_list m start strict lo (the_hi m ohi)).
-Proof.
-  intros m start strict reverse lo ohi Hv Hfin Hstart. destruct reverse.
-  - apply machine_reverse_total; auto.
-  - apply machine_forward_total; auto.
-Qed.
-Print Assumptions C14_machine_total.
-
-(* WHY the forward hypothesis stays: the code after e6d88f7 (mirrored by the model) is wrong when a
-   symbol of the start word lies below the whole alphabet.  Alphabet {1}, all words accepted,
-   start [0] ("a" against the alphabet {"b"}): popping 0 makes next_symbol return the first symbol, and
-   the pre-order yield test `candidate == first_symbol` fires again for the parent word [] - a proper
-   prefix of the start word, hence not a successor.  Open finding successor_foreign_symbol_below_alphabet. *)
+(* the input on which the refinement proof did not close before 366d64a (a start symbol below the
+   whole alphabet: alphabet {1}, all words accepted, start [0] resp. [1;0]; the code then generated
+   the proper prefix [] resp. [1] of the start word again) *)
 Definition ex_b : dfa := mkdfa [0] [1] [(0,[(1,0)])] 0 [0] false.
-Example C14_foreign_below_counterexample :
+Example C14_foreign_below_regression :
   valid_dfa ex_b = true /\
   succ_list ex_b (Some [0]) true 0 1 = [[1]] /\
-  succ_machine (machine_fuel ex_b (Some [0]) (Some 1)) ex_b (Some [0]) true false 0 (Some 1) = Ok [[]; [1]] /\
+  succ_machine (machine_fuel ex_b (Some [0]) (Some 1)) ex_b (Some [0]) true false 0 (Some 1) = Ok [[1]] /\
   succ_list ex_b (Some [1;0]) true 0 1 = [] /\
-  succ_machine (machine_fuel ex_b (Some [1;0]) (Some 1)) ex_b (Some [1;0]) true false 0 (Some 1) = Ok [[1]] /\
-  (* the same symbol above the alphabet, and the reverse direction, are fine *)
+  succ_machine (machine_fuel ex_b (Some [1;0]) (Some 1)) ex_b (Some [1;0]) true false 0 (Some 1) = Ok [] /\
+  succ_machine (machine_fuel ex_b (Some [1;0]) (Some 2)) ex_b (Some [1;0]) false false 0 (Some 2) = Ok [[1;1]] /\
   succ_machine (machine_fuel ex_b (Some [2]) (Some 1)) ex_b (Some [2]) true false 0 (Some 1) = Ok [] /\
-  succ_list ex_b (Some [2]) true 0 1 = [].
+  succ_machine (machine_fuel ex_b (Some [0]) (Some 1)) ex_b (Some [0]) true true 0 (Some 1) = Err Infinite.
 Proof. vm_compute. repeat split. Qed.
 
 (* the iteration count behind the budget: a traversal never needs more than (n+1) loop iterations per
